@@ -62,6 +62,8 @@ def check_follow(sc):
         out.label("slow_steps")
     if np.any(dTs > maxdT):
         out.label("fast_steps")
+    if sc.get("spike"):
+        out.label("hold_spike_hold")
     out.nt(total > 3 * maxdT and slow and bool(np.any(pd.nucRate > 0)))
     return out
 
@@ -132,6 +134,15 @@ def _ramp_scenario(draw, cap=300):
         kind = draw(st.sampled_from(["heat", "cool", "hold", "heat", "cool"]))
         d = draw(st.floats(2.0, 120.0)) * draw(st.sampled_from([1.0, 1.0, 0.1]))
         Ts.append(float(np.clip(Ts[-1] + (d if kind == "heat" else -d if kind == "cool" else 0.0), 350.0, 1300.0)))
+    if draw(st.integers(0, 3)) == 3:
+        # hold - spike - hold: a short excursion (comparable to or shorter than a time step) that returns to bit-equal the hold
+        # temperature, so that a step can start and end at the same temperature while its intermediate stages do not
+        w = total / 3600 * 10 ** draw(st.floats(-3.0, -1.3))
+        t1 = total / 3600 * draw(st.floats(0.2, 0.8))
+        dT = draw(st.floats(3.0, 60.0)) * draw(st.sampled_from([1.0, -1.0]))
+        hrs = [0.0, t1, t1 + w / 2, t1 + w, total / 3600]
+        Ts = [T0, T0, float(np.clip(T0 + dT, 350.0, 1300.0)), T0, T0]
+        sc["spike"] = True
     sc["T"] = [draw(st.sampled_from(["array", "array", "func"])), hrs, Ts]
     c = dict(sc.get("constraints") or {})
     c["maxTempChange"] = draw(st.sampled_from([1.0, 1.0, 0.1, 0.5, 3.0, 10.0]))
